@@ -191,7 +191,7 @@ def wrappers_in(d, acc):
         wrappers_in(d[1], acc)
 
 
-def module_source(env, roots) -> str:
+def module_source(env, roots, derive=True) -> str:
     """Python source defining every class / alias / enum of env and the wrapper objects used by roots."""
     out = [PRELUDE]
     defs = env["defs"]
@@ -281,26 +281,55 @@ def module_source(env, roots) -> str:
             lines.append(f"    {fname}: {ann}" + (f" = {default}" if default is not None else "") + "\n")
         # every third class has callable instances (origin() must still see a class, not typing.Callable)
         call = "    def __call__(self):\n        return None\n" if isinstance(n, int) and n % 3 == 1 else ""
+        # every fourth class is spelled as a DERIVED class: a base of the same flavour declares all the fields in the
+        # same order, some of them with ANOTHER (plain) type, and the class itself re-declares those with the type
+        # the description says.  The hints, the field order and the generated __init__ are those of the flat
+        # spelling (a re-declared field keeps its position and takes the subclass's annotation and default), so the
+        # description -- and everything the model is told -- is unchanged; only code that merges annotations over
+        # the MRO in the wrong direction sees a difference (seeded change C05-r6m1).
+        base, redecl = "", set()
+        if derive and isinstance(n, int) and n % 4 == 2 and fields and flavour in ("dataclass", "typeddict", "plain"):
+            redecl = {f[0] for i, f in enumerate(fields) if i % 2 == 0 and f[1][0] not in ("final", "classvar")}
+            base = cname(n) + "Base" if redecl else ""
+
+        def other(ann):
+            return "int" if ann.strip("'\"") in ("bytes", "typing.Optional[bytes]") else "bytes"
+        blines = []
+        if base:
+            for fname, t, default in fields:
+                ann = repr(src_ty(t, env)) if mentions_undefined(t) else src_ty(t, env)
+                blines.append(f"    {fname}: {other(ann) if fname in redecl else ann}"
+                              + (f" = {default}" if default is not None and flavour != "plain" else "") + "\n")
+            lines = [ln for ln, f in zip(lines, [f for f in fields]) if f[0] in redecl] if flavour != "plain" else lines
         if flavour == "dataclass":
-            out.append(f"@dataclasses.dataclass({opts})\nclass {cname(n)}:\n" + ("".join(lines) or "    pass\n") + call)
+            if base:
+                out.append(f"@dataclasses.dataclass({opts})\nclass {base}:\n" + "".join(blines))
+            out.append(f"@dataclasses.dataclass({opts})\nclass {cname(n)}{'(' + base + ')' if base else ''}:\n"
+                       + ("".join(lines) or "    pass\n") + call)
         elif flavour == "namedtuple":
             out.append(f"class {cname(n)}(typing.NamedTuple):\n" + ("".join(lines) or "    pass\n"))
         elif flavour == "typeddict":
-            out.append(f"class {cname(n)}(typing.TypedDict{', total=False' if opts == 'total=False' else ''}):\n"
-                       + ("".join(lines) or "    pass\n"))
+            tot = ', total=False' if opts == 'total=False' else ''
+            if base:
+                out.append(f"class {base}(typing.TypedDict{tot}):\n" + "".join(blines))
+            out.append(f"class {cname(n)}({base or 'typing.TypedDict'}{tot}):\n" + ("".join(lines) or "    pass\n"))
         elif flavour == "plain":
             params, body, anns = [], [], []
+            if base:
+                out.append(f"class {base}:\n" + "".join(blines))
             for fname, t, default in fields:
                 ann = src_ty(t, env)
                 if mentions_undefined(t):
                     ann = repr(ann)
-                anns.append(f"    {fname}: {ann}\n")
+                if not base or fname in redecl:
+                    anns.append(f"    {fname}: {ann}\n")
                 params.append(f"{fname}: {ann}" + (f" = {default}" if default is not None else ""))
                 body.append(f"        self.{fname} = {fname}\n")
             eq = ("    def __eq__(self, o):\n        return type(o) is type(self) and vars(o) == vars(self)\n"
                   "    __hash__ = None\n"
                   f"    def __repr__(self):\n        return '{cname(n)}(' + repr(vars(self)) + ')'\n")
-            out.append(f"class {cname(n)}:\n" + "".join(anns) + f"    def __init__(self, {', '.join(params)}):\n"
+            out.append(f"class {cname(n)}{'(' + base + ')' if base else ''}:\n" + "".join(anns)
+                       + f"    def __init__(self, {', '.join(params)}):\n"
                        + ("".join(body) or "        pass\n") + eq + call)
         defined.add(n)
         emit_wrappers()
